@@ -1038,3 +1038,84 @@ def oracle_data_full(evs, meta):
             if meta.get("drop") == 0 and rxn != txn:
                 return "reliable mode, loss-free network: only %d of %d bytes arrived within a minute (agent %s component %d)" % (rxn, txn, a, c)
     return None
+
+
+# ------------------------------------------------------------------ C15 on live sessions: candidate ranking, pair formula, check-list order
+def gen_priorities(rng, i):
+    """two agents (reliable or not) with several addresses, optional STUN (behind a 1:1 NAT) and TURN servers; candidates are signalled,
+    signalled AGAIN with other priorities (re-offer), roles collide and restarts happen; the check lists are dumped after every step."""
+    rel = OPT_RELIABLE if rng.random() < 0.5 else 0
+    opts = tuple(rel | rng.choice([0, OPT_REGULAR]) for _ in (0, 1))
+    ncomp = rng.choice([1, 2])
+    ips = tuple(tuple("10.0.%d.%d" % (a, k + 1) for k in range(rng.choice([1, 2, 3]))) for a in (0, 1))
+    ops = two_agents(rng, 0, opts, rng.choice([(1, 0), (0, 1), (1, 1), (0, 0)]), ips, ncomp)
+    ops.append("net,%s,0,1,%d,3" % (rng.choice([0, 0, 0.2]), rng.choice([1, 30])))
+    for a in (0, 1):
+        if rng.random() < 0.6:
+            for ip in ips[a]:
+                ops.append("nat,%s,198.51.%s" % (ip, ip.split(".", 2)[2]))
+            ops += ["server,10.9.%d.1,3478,ok" % a, "stun,%d,10.9.%d.1,3478" % (a, a)]
+        if rng.random() < 0.4:
+            ops.append("server,10.9.%d.1,3478,ok" % (a + 2))
+            ops += ["relay,%d,1,%d,10.9.%d.1,3478" % (a, c, a + 2) for c in range(1, ncomp + 1)]
+    ops += ["gather,0,1", "gather,1,1", "run,%d" % rng.choice([500, 3000])]
+    ops += ["localcands,%d,1,%d" % (a, c) for a in (0, 1) for c in range(1, ncomp + 1)]
+    ops += signalling(rng, ncomp) + ["pairs,0", "pairs,1"]
+    for _ in range(rng.randrange(1, 8)):
+        r = rng.random(); a = rng.randrange(2)
+        if r < 0.45:
+            ops.append("recand,%d,%d,1,%d,%d" % (a, 1 - a, rng.randrange(1, ncomp + 1), rng.randrange(1, 1 << 20)))
+        elif r < 0.55:
+            ops += ["restart,%d" % a, "creds,%d,%d,1" % (a, 1 - a), "restart,%d" % (1 - a), "creds,%d,%d,1" % (1 - a, a)]
+            ops += ["cands,0,1,1,%d" % c for c in range(1, ncomp + 1)] + ["cands,1,0,1,%d" % c for c in range(1, ncomp + 1)]
+        elif r < 0.65:
+            ops.append("propb,%d,controlling-mode,%d" % (a, rng.randrange(2)))
+        else:
+            ops.append("run,%d" % rng.choice([0, 20, 100, 600, 3000]))
+        ops += ["pairs,0", "pairs,1"]
+    ops += ["run,3000", "pairs,0", "pairs,1", "digest"] + final_queries(ncomp)
+    return "prio%d %s" % (i, " ".join(ops)), {"kind": "priorities", "ncomp": ncomp, "reliable": bool(rel)}
+
+
+def _pf(G, D):
+    return ((1 << 32) * min(G, D) + 2 * max(G, D) + (1 if G > D else 0))
+
+
+def oracle_priorities(evs, meta=None):
+    RANK = {0: 3, 2: 2, 1: 1, 3: 0}        # NiceCandidateType: host 0, srflx 1, prflx 2, relayed 3
+    for e in evs:
+        cands = []
+        if e.kind == "api" and len(e.f) > 4 and e.f[1] == "local_candidates":
+            cands = e.f[5:]
+        elif e.kind == "sig" and e.f[1] == "new-candidate":
+            cands = e.f[4:5]
+        parsed = []
+        for c in cands:
+            w = c.split("/")
+            if len(w) < 7:
+                continue
+            ty, tr, pr = int(w[1]), int(w[2]), int(w[5])
+            if not 0 < pr < (1 << 31):
+                return "candidate %s has priority %d outside 1..2^31-1" % (c, pr)
+            if (pr >> 24) > 126:
+                return "candidate %s has type preference %d > 126" % (c, pr >> 24)
+            parsed.append((ty, tr, pr, c))
+        for (t1, r1, p1, c1) in parsed:
+            for (t2, r2, p2, c2) in parsed:
+                if r1 == r2 and RANK.get(t1, -1) > RANK.get(t2, -1) and p1 <= p2:
+                    return "candidate ranking violated (host > prflx > srflx > relayed of one transport): %s does not outrank %s" % (c1, c2)
+        if e.kind == "pl":
+            ctl = e.f[1] == "ctl=1"
+            import re as _re
+            for m in _re.finditer(r"s(\d+)\[([^\]]*)\]", " ".join(e.f)):
+                prs = []
+                for x in m.group(2).split():
+                    comp, lp, rp, pp = map(int, x.split(":"))
+                    exp = _pf(lp, rp) if ctl else _pf(rp, lp)
+                    if pp != exp:
+                        return ("agent %s (%s) stream %s: pair of local priority %d / remote priority %d has pair priority %d, the formula gives %d"
+                                % (e.f[0], "controlling" if ctl else "controlled", m.group(1), lp, rp, pp, exp))
+                    prs.append(pp)
+                if any(prs[k] < prs[k + 1] for k in range(len(prs) - 1)):
+                    return "agent %s stream %s: check list not in descending pair-priority order: %s" % (e.f[0], m.group(1), prs)
+    return None
